@@ -79,6 +79,7 @@ REQUIRED = REQUIRED_fn  # type: ignore
 _INST = {}
 _ALIAS = [0]
 CLONE = [0]
+STALE = [0]
 
 
 def make_instance(n, cfg, matrix=None, layout="C"):
@@ -125,6 +126,29 @@ def make_instance(n, cfg, matrix=None, layout="C"):
                             amin, amax, smin, smax)
             buf[:, :] = buf.T.copy() * 3 + 1
             np.fill_diagonal(buf, 7)
+        elif _ALIAS[0] % 6 == 5:
+            # the matrix argument is itself an instance of the package (the
+            # library's own documentation re-creates instances that way) -
+            # one built for ANOTHER matrix and other settings, then
+            # overwritten in place: what it remembers about itself is stale
+            mm = np.array(matrix, np.int64)
+            other = np.maximum(mm, mm.T) * 2 + 1
+            np.fill_diagonal(other, 0)
+            if bool((mm == mm.T).all()):
+                other[0, 1] += 3
+            try:
+                src = Instance(iname + "o", other,
+                               [f"o{i}" for i in range(n)], rounds + 1,
+                               1, rounds * n, 1, rounds * n, 0, rounds * n)
+            except ValueError:
+                src = None
+            if src is not None and int(np.iinfo(src.dtype).max) >= int(
+                    mm.max()):
+                src[:, :] = mm
+                inst = Instance(iname, src, [f"t{i}" for i in range(n)],
+                                rounds, hmin, hmax, amin, amax, smin, smax)
+                src[:, :] = 1
+                STALE[0] += 1
     if matrix is None:
         _INST[key] = inst
     return inst
